@@ -3,7 +3,7 @@
    order, FeeRate::fee as a parameter [fee : N -> N]).  Specification: Wallet/BuilderSpec.v.
    Only statements here, closed by [exact]. *)
 From OrdV Require Import Base.Prelude Generated Wallet.Builder Wallet.BuilderSpec Proofs.Builder_proofs
-  Proofs.Builder_nopanic.
+  Proofs.Builder_nopanic Wallet.BuilderPinned.
 
 (* (a) Coin selection, for every wallet, pool, target value and preference: the outpoint returned
    by select_cardinal_utxo comes from the pool, is not runic, not locked and carries no
@@ -81,6 +81,30 @@ Proof.
   - intros _. exists 1. split; [reflexivity|]. reflexivity.
   - intros a H. inversion H. vm_compute. discriminate.
 Qed.
+
+(* The pinned code (model Wallet/BuilderPinned.v, transaction_builder.rs before the repairs)
+   does reach panic sites on well-formed calls; each witness below was replayed on the real
+   pinned builder (corpus/C20/defects_found.txt) and panicked there with the same assertion:
+   1 burn of an inscription on a 330-sat output (ExactPostage(1) to OP_RETURN, 1 sat/vB)
+   2 send --postage 10000 of a 10211-sat output                  -> "excess postage is stripped"
+   3 postage send to p2wpkh, 300-sat output + 150-sat cardinal   -> "all outputs are above dust limit"
+   4 Value(10000) to p2wpkh, 300-sat output + 9856-sat cardinal  -> unwrap on None (recipient would get 9999)
+   5 0.75 sat/vB, Value(10000) to p2tr from a 10446-sat output   -> "output equals target value"
+   6 change [p2wpkh, p2pkh], offset 100, 200-sat cardinal        -> "all outputs are above dust limit" *)
+Lemma C20_pinned_code_panics :
+  Pinned.build_transaction (Pinned.fee_dyadic 1 0)
+    (Pinned.mkWallet [(10, 330)] [(10, 0)] [] [] 10 0 29 0 8 (Pinned.TExact 1)) = Panic Pinned.P_B_POSTAGE /\
+  Pinned.build_transaction (Pinned.fee_dyadic 1 0)
+    (Pinned.mkWallet [(10, 10211)] [] [] [] 10 0 16 0 8 (Pinned.TExact 10000)) = Panic Pinned.P_B_POSTAGE /\
+  Pinned.build_transaction (Pinned.fee_dyadic 1 0)
+    (Pinned.mkWallet [(10, 300); (20, 150)] [] [] [] 10 0 1 0 8 Pinned.TPostage) = Panic Pinned.P_B_DUST /\
+  Pinned.build_transaction (Pinned.fee_dyadic 1 0)
+    (Pinned.mkWallet [(10, 300); (20, 9856)] [] [] [] 10 0 1 0 8 (Pinned.TValue 10000)) = Panic Pinned.P_B_VALUE_UNWRAP /\
+  Pinned.build_transaction (Pinned.fee_dyadic 3 2)
+    (Pinned.mkWallet [(10, 10446)] [] [] [] 10 0 16 0 8 (Pinned.TValue 10000)) = Panic Pinned.P_B_VALUE /\
+  Pinned.build_transaction (Pinned.fee_dyadic 1 0)
+    (Pinned.mkWallet [(5, 200); (10, 10000)] [] [] [] 10 100 16 1 10 Pinned.TPostage) = Panic Pinned.P_B_DUST.
+Proof. vm_compute. repeat split; reflexivity. Qed.
 
 Print Assumptions C20_select_cardinal_never_noncardinal.
 Print Assumptions C20_build_ok_implies_spec.
